@@ -268,6 +268,7 @@ fn run(ctx: &Ctx) {
     ctx.run_proptest_with("nil-and-skip-templates", ctx.tier.pick(600_000, 5_000_000), nil, check_extra);
     ctx.run_proptest_with("scripted-targets", ctx.tier.pick(800_000, 6_000_000), || Box::new(super::c07::dyn_case_strategy(false)), check_dyn);
     ctx.run_proptest_with("scripted-targets-x-token-soup", ctx.tier.pick(200_000, 2_000_000), || Box::new(super::c07::dyn_case_strategy(true)), check_dyn);
+    ctx.run_proptest_with("scripted-targets-x-nil-documents", ctx.tier.pick(300_000, 3_000_000), || Box::new(super::c07::dyn_nil_strategy()), check_dyn);
     let soup = || {
         Box::new((prop::collection::vec(any::<u16>(), 0..14), prop::sample::select(ALL_TYPES.to_vec()), cuts_strategy()).prop_map(|(ws, ty, (sel, rnd))| {
             let input = ws.iter().map(|w| VOCAB[scale(*w, VOCAB.len())]).collect::<Vec<_>>().concat();
